@@ -160,7 +160,32 @@ func fontsFor(engine string) (text.FontConfiguration, error) {
 	return wr.NewPangoConfig()
 }
 
-// renderOpts: hook = install layout.VerifPageHook (a process global: sequential renders only).
+// maxPages bounds the documents of this check: a page loop that goes beyond it (a huge or a
+// never-ending document — C01's question) ends the render with the outcome "toolong".
+const maxPages = 400
+
+type pageLimit struct{}
+
+// observed is the outcome that receives the out-of-flow observations of the page hook.  It is set by
+// sequential renders only (renderOpts.hook) and is nil while goroutines render, so the hook only
+// reads it then.
+var observed *outcome
+
+// installHook sets layout.VerifPageHook once per process, before any concurrent render.  The hook
+// is stateless apart from `observed`: the page limit is decided on the page index it is given.
+func installHook() {
+	layout.VerifPageHook = func(index int, resumeAt string, oof, foot int, page *bo.PageBox) {
+		if index >= maxPages {
+			panic(pageLimit{})
+		}
+		if o := observed; o != nil && oof > o.MaxOOF {
+			o.MaxOOF = oof
+		}
+	}
+}
+
+// renderOpts: hook = record the page-loop observations of this render in its outcome (sequential
+// renders only).
 type renderOpts struct {
 	fonts text.FontConfiguration // nil = fresh configuration
 	hook  bool
@@ -178,11 +203,18 @@ func render(d *cdoc, ro renderOpts) (out *outcome, second *outcome) {
 	out = &outcome{MaxOOF: -1}
 	defer func() {
 		if ro.hook {
-			layout.VerifPageHook = nil
+			observed = nil
 		}
 		if p := recover(); p != nil {
 			if s, ok := p.(string); ok && strings.HasPrefix(s, "harness:") {
 				panic(p) // a defect of the harness itself must be loud
+			}
+			if _, ok := p.(pageLimit); ok {
+				// the document is outside the domain of this check (C01 judges whether the page loop ends)
+				out.Kind = "toolong"
+				out.Lines = []string{fmt.Sprintf("more than %d pages", maxPages)}
+				second = nil
+				return
 			}
 			out.Kind = "panic"
 			out.Lines = []string{fw.PanicSig(maskHex(fmt.Sprint(p)), string(debug.Stack()))}
@@ -199,16 +231,7 @@ func render(d *cdoc, ro renderOpts) (out *outcome, second *outcome) {
 	}
 	if ro.hook {
 		out.MaxOOF = 0
-		iterations := 0
-		layout.VerifPageHook = func(index int, resumeAt string, oof, foot int, page *bo.PageBox) {
-			if oof > out.MaxOOF {
-				out.MaxOOF = oof
-			}
-			iterations++
-			if iterations > 3000 {
-				panic("harness: more than 3000 page-loop iterations (C01's domain)")
-			}
-		}
+		observed = out
 	}
 	html, err := tree.NewHTML(utils.InputString(d.HTML), "mem://doc/", wr.MemFetcher(d.Files), "")
 	if err != nil {
